@@ -544,16 +544,21 @@ func actionBurst(r *rand.Rand, st *ccStats, hid int) string {
 			if r.Intn(3) != 0 {
 				kinds = []string{"pass", "check", "call", "fold"} // hands go deeper without the all-ins
 			}
+			// every participant submits every kind, twice, at once; the backend dwells on each call
+			h.be.Dwell = time.Duration(50+r.Intn(250)) * time.Microsecond
 			for gi := range gs.Players {
 				for _, k := range kinds {
-					wg.Add(1)
-					go func(gi int, k string) {
-						defer wg.Done()
-						h.call(actSpec{gameIDs[gi], k, 0})
-					}(gi, k)
+					for rep := 0; rep < 2; rep++ {
+						wg.Add(1)
+						go func(gi int, k string) {
+							defer wg.Done()
+							h.call(actSpec{gameIDs[gi], k, 0})
+						}(gi, k)
+					}
 				}
 			}
 			wg.Wait()
+			h.be.Dwell = 0
 			h.settleDown()
 			// every accepted action was submitted by the player whose turn it was when the hand engine applied it
 			calls := h.be.Calls()[nCalls:]
@@ -567,6 +572,15 @@ func actionBurst(r *rand.Rand, st *ccStats, hid int) string {
 			evs := append([]pokertable.TablePlayerGameAction{}, rig.actions[nEv:]...)
 			rig.mu.Unlock()
 			accepted += len(evs)
+			// one action per turn: no two applied calls were made against the same hand state
+			seenIn := map[int64]bool{}
+			for _, c := range okCalls {
+				if seenIn[c.InAt] {
+					line("cc anomaly C16.two-actions-applied-against-the-same-hand-state kind=%s current=%d", c.Kind, c.InCur)
+					st.Anomalies++
+				}
+				seenIn[c.InAt] = true
+			}
 			if len(evs) != len(okCalls) {
 				line("cc anomaly C16.accepted-actions-and-applied-backend-calls-differ events=%d calls=%d", len(evs), len(okCalls))
 				st.Anomalies++
